@@ -76,6 +76,11 @@ def run(check, prog):
     # ... and `an invalid scatterer gives -inf` rests on the constructors refusing
     # exactly the invalid ones (rule shared with C20)
     c20.constructors(check, prog)
+    # ... for the shapes of the compiled T-matrix code as well (shared with C10):
+    # a negative size proposed inside a prior's support must be an
+    # InvalidScatterer, not a call into code that ends the interpreter
+    from . import c10
+    c10.size_guards_of_accepted(check, prog)
     # `violates a constraint gives -inf`: the overlap constraint is
     # largest_overlap() <= fraction * diameter, so the constraint is right only if
     # the largest overlap is (rule shared with C20)
